@@ -357,6 +357,27 @@ def _replay(prop_id, path):
     return 1
 
 
+def _sensitivity_catalogue(prop_id):
+    """What exists for judging this check's sensitivity (not run by the check itself)."""
+    prefix = prop_id.lower() + "_"
+    mutants = sorted(name for name in os.listdir(os.path.join(VERIF, "mutants")) if name.startswith(prefix)) \
+        if os.path.isdir(os.path.join(VERIF, "mutants")) else []
+    seeds = {}
+    seeded = os.path.join(VERIF, "seeded")
+    for name in sorted(os.listdir(seeded)) if os.path.isdir(seeded) else []:
+        meta_path = os.path.join(seeded, name, "meta.json")
+        if not os.path.exists(meta_path):
+            continue
+        with open(meta_path, "r", encoding="utf-8") as stream:
+            meta = json.load(stream)
+        verdict = (meta.get("checks") or {}).get(prop_id)
+        if verdict is not None:
+            seeds[name] = "detected" if verdict.get("exit") == 1 else "exit %s" % verdict.get("exit")
+    return {"hand_written_mutants": mutants, "seeded_regressions_last_recorded_verdict": seeds,
+            "how": "tools/mutants_all.sh and tools/seed_intake.py apply each patch to a scratch copy of /repo and run this "
+                   "check's quick tier against it; verdicts are recorded in seeded/<name>/meta.json"}
+
+
 def run_check(prop_id, tier, base_seed):
     scratch = "/dev/shm/verif-scratch-%d" % os.getpid()
     os.environ["VERIF_SCRATCH"] = scratch
@@ -515,6 +536,7 @@ def _run_check(prop_id, tier, base_seed):
         "violation_signatures_seen": dict(sorted(total["raw_counts"].items())),
         "workers": workers,
         "repo": boot.REPO,
+        "sensitivity_catalogue": _sensitivity_catalogue(prop_id),
     }
     evidence = {
         "property_id": prop_id,
